@@ -20,7 +20,7 @@ import (
 // additional condition on the entry) leaves the children of the other kind unrecorded after a restart —
 // acknowledged manifests answer 404 by digest although their blobs are stored and retained.
 func init() {
-	register(&Rule{ID: "SH-SCAN-QUEUE", Floor: 2,
+	register(&Rule{ID: "SH-SCAN-QUEUE", Floor: 1,
 		Doc: "in the index ingest every descriptor the media-type classification (types.MediaTypeIndex) accepts as an index is queued for the child scan: on the way from the entry loop to the append onto the scan worklist the only tests of the entry are the classification predicate itself (or comparisons every index media type passes) and the ‘digest already seen’ test — a narrower guard (one media type only, or a condition on the entry's annotations) leaves the children of some nested indexes unrecorded on every load of index.json",
 		Run: func(c *core.Ctx) {
 			r := requireRoles(c)
